@@ -144,7 +144,7 @@ def _es_jobs():
     for n, thorough in ((2, False), (3, True)):
         out.append(Job(f"ExitStack[n<={n}]", ("contextlib", "ExitStack"), ("ref_exitstack", "ExitStack"), mk, kind="protocol",
                        props=("C14", "C18"), faults=False, closes=False, release=False, thorough=thorough, max_paths=200000,
-                       opts={"protocol": ExitStackProtocol(n), "direct_calls_ok": True, "cm_exit_cancel": True,
+                       opts={"protocol": ExitStackProtocol(n), "direct_calls_ok": True, "cm_exit_cancel": True, "budget_s": 1500,
                              "module_overrides": {"contextlib": {}}}))
     return out
 
